@@ -48,6 +48,12 @@ type Interp struct {
 	WidenAfter int // arrivals at a loop header that keep concrete loop-carried values (unrolling) before widening starts
 	MaxLoop  int // visits of one loop header per trace before the partition is cut
 
+	EagerWiden bool // loop-carried values are abstracted to a loop-variant symbol from the first arrival on
+	MaybeNil  func(key string) bool // symbolic pointers that may be nil (dereference partitions on nil-ness)
+	ForgetAll bool   // at a repeated loop-header arrival forget every atom decided inside the loop (walker mode)
+	ResetHook func() // called at the start of every trace
+	journal   []func()
+
 	decisions []int
 	maxes     []int
 	pos       int
@@ -150,6 +156,10 @@ func (in *Interp) runOnce(fn *ssa.Function, args []AVal) (tr Trace) {
 	in.depth = 0
 	in.globals = map[*ssa.Global]*Cell{}
 	in.symCells = map[string]*Cell{}
+	in.journal = nil
+	if in.ResetHook != nil {
+		in.ResetHook()
+	}
 	defer func() {
 		if r := recover(); r != nil {
 			if _, conv := r.(aiConverged); conv {
@@ -229,8 +239,12 @@ func (in *Interp) Choose(atom string, n int) int {
 	in.pos++
 	in.pc[atom] = v
 	in.order = append(in.order, atom)
+	in.Journal(func() { delete(in.pc, atom) })
 	return v
 }
+
+// Journal registers an undo action for state that must be forgotten when a loop repeats.
+func (in *Interp) Journal(undo func()) { in.journal = append(in.journal, undo) }
 
 // Decided returns the decision for an atom if already taken on this trace.
 func (in *Interp) Decided(atom string) (int, bool) { v, ok := in.pc[atom]; return v, ok }
@@ -263,6 +277,7 @@ type frame struct {
 
 // loopSnap is the abstract state observed on arrival at a loop header.
 type loopSnap struct {
+	jmark   int
 	phis    []string
 	nEvents int
 	mem     string
@@ -315,6 +330,9 @@ func (in *Interp) load(p AVal, t types.Type, at ssa.Instruction) AVal {
 		c := x.C
 		if len(c.Fields) > 0 {
 			sv := StructVal{F: map[int]AVal{}, T: c.T}
+			if bs, ok := c.V.(Sym); ok {
+				sv.Base = &bs
+			}
 			for i, fc := range c.Fields {
 				sv.F[i] = in.load(Ptr{C: fc}, fc.T, at)
 			}
@@ -329,6 +347,11 @@ func (in *Interp) load(p AVal, t types.Type, at ssa.Instruction) AVal {
 		}
 		return c.V
 	case Sym:
+		if in.MaybeNil != nil && in.MaybeNil(x.K) {
+			if in.Choose("eq(nil,"+x.K+")", 2) == 1 {
+				in.Panics(at, "nil pointer dereference of %s", x.K)
+			}
+		}
 		return Sym{K: "*" + x.K, T: t}
 	case Cst:
 		if x.V == nil {
@@ -343,6 +366,11 @@ func (in *Interp) store(p AVal, v AVal, at ssa.Instruction) {
 	case Ptr:
 		if sv, ok := v.(StructVal); ok {
 			x.C.Fields = map[int]*Cell{}
+			if sv.Base != nil {
+				x.C.V = *sv.Base
+			} else {
+				x.C.V = nil
+			}
 			st, _ := sv.T.Underlying().(*types.Struct)
 			for i, fv := range sv.F {
 				var ft types.Type
@@ -353,10 +381,10 @@ func (in *Interp) store(p AVal, v AVal, at ssa.Instruction) {
 				fc.V = fv
 				x.C.Fields[i] = fc
 			}
-			x.C.V = nil
 			return
 		}
 		x.C.V = v
+		x.C.Fields = nil
 	case Cst:
 		if x.V == nil {
 			in.Panics(at, "store through nil pointer")
@@ -426,6 +454,19 @@ func (in *Interp) callFn(fn *ssa.Function, args []AVal, bind []AVal) AVal {
 			// explored from there).
 			loopID := fmt.Sprintf("φ:%s:%d", fnName(fn), b.Index)
 			old := fr.snap[b]
+			if old == nil && in.EagerWiden {
+				for i, ph := range phis {
+					variant := false
+					for _, e := range ph.Edges {
+						if e != ph.Edges[0] {
+							variant = true
+						}
+					}
+					if variant {
+						phiVals[i] = Sym{K: loopID + ":" + ph.Name() + ":" + ph.Comment, T: ph.Type()}
+					}
+				}
+			}
 			if old != nil && fr.visits[b] <= in.WidenAfter {
 				old = nil // still unrolling concretely
 			}
@@ -441,11 +482,19 @@ func (in *Interp) callFn(fn *ssa.Function, args []AVal, bind []AVal) AVal {
 					}
 				}
 			}
+			if prevSnap := fr.snap[b]; prevSnap != nil && in.ForgetAll {
+				for i := len(in.journal) - 1; i >= prevSnap.jmark; i-- {
+					in.journal[i]()
+				}
+				in.journal = in.journal[:prevSnap.jmark]
+			}
 			sn := &loopSnap{nEvents: in.monitoredEvents()}
 			if prevSnap := fr.snap[b]; prevSnap != nil {
 				sn.allocN = prevSnap.allocN
+				sn.jmark = prevSnap.jmark
 			} else {
 				sn.allocN = in.allocN
+				sn.jmark = len(in.journal)
 			}
 			for _, v := range phiVals {
 				sn.phis = append(sn.phis, keyOf(v))
@@ -622,6 +671,8 @@ func (in *Interp) evalValue(fr *frame, v ssa.Value) AVal {
 				if b.C.Label != "" { // symbolic object: its fields are symbolic too
 					fc.Label = b.C.Label + "." + name
 					fc.V = Sym{K: fc.Label, T: fc.T}
+				} else if sv, ok := b.C.V.(Sym); ok { // a struct copied from a symbolic value
+					fc.V = Sym{K: sv.K + "." + name, T: fc.T}
 				}
 				b.C.Fields[x.Field] = fc
 			}
@@ -644,6 +695,9 @@ func (in *Interp) evalValue(fr *frame, v ssa.Value) AVal {
 		if sv, ok := base.(StructVal); ok {
 			if fv, ok := sv.F[x.Field]; ok {
 				return fv
+			}
+			if sv.Base != nil {
+				return Sym{K: sv.Base.K + "." + fieldValName(x), T: x.Type()}
 			}
 			return zeroOf(x.Type())
 		}
@@ -1085,6 +1139,11 @@ func (in *Interp) doCall(fr *frame, site ssa.Instruction, cc *ssa.CallCommon, ar
 		}
 	}
 	if cc.IsInvoke() {
+		if m, ok := in.Models["invoke:"+cc.Method.Name()+"@"+shortType(cc.Value.Type().String())]; ok {
+			if r, ok := m(in, site, cc, args); ok {
+				return r
+			}
+		}
 		if m, ok := in.Models["invoke:*."+cc.Method.Name()]; ok {
 			if r, ok := m(in, site, cc, args); ok {
 				return r
